@@ -75,6 +75,14 @@ CHECKS = {
   "Explicit-state search over edit histories: from 8 start documents (values, tables, interleaved arrays of tables, dotted and implicit tables, multi-line arrays with comments, sub-table before super-table, quoted keys, nested inline containers) and wide 24-44 header documents, every history of <= 3 (quick) / 4 (thorough) public edit calls on every path of the current document; after every step the printed text must be valid (specification model), a fixed point of the real parser, decode to the reference tree after the same edit (order among values and among array-of-tables elements), and every marked entry the edit did not touch must keep its line and the comment above it byte-for-byte. States are deduplicated by printed text + Debug of the document.",
   "'Touched' is defined per call by the reference model; table-like siblings are compared as a set because printing follows recorded header positions; empty implicit tables / arrays of tables are invisible but kept; comments after a comma belong to the following array element, so marker comments sit before the comma.",
   "explicit-state BFS over real edit call histories; step-wise conformance with a reference tree plus verbatim-fragment oracle"),
+ "C18": ("exploration", "cfg", "5/C18",
+  "The cargo feature matrix is enumerated completely (quick: 6 configurations, thorough: 20: toml_edit default / perf / serde / unbounded x parse+display / parse-only / display-only; toml default / preserve_order x parse+display / parse-only / display-only, with perf and unbounded underneath); every configuration must build; one deterministic battery (all documents of <= 4 tokens, all statement sequences <= 3, range-edge literals, decor samples, API-built documents, toml::Value trees in every insertion order, every toml::Map call history of <= 4 calls over 4 keys, equality of same-content tables) runs in each; block digests of verdicts, trees, printed text and sorted observations are compared between all configurations that can compute them, a differing block is dumped to locate the item.",
+  "Documented exceptions: order-dependent kinds are compared only between configurations with the same map ordering; unbounded only matters beyond the recursion limit, which the battery does not reach. The configuration space is enumerated completely, the battery is a bounded slice.",
+  "exhaustive enumeration of the feature matrix x a fixed battery; cross-configuration digest equality"),
+ "C19": ("exploration", "prog", "5/C19",
+  "Every document of the enumerated macro-tokenisable shapes (8 key shapes, 44 value shapes, 9 nestings, 9 header shapes, header pairs, statement pairs; 2.2 K documents quick, ~12 K thorough) that the parser accepts is written into generated Rust programs, once inside toml!{..} and once as a string literal, compiled against /repo and run; the macro's table must equal the parsed table (floats bit-wise); a shape that stops compiling is bisected to the document and reported.",
+  "Shapes the macro cannot tokenise by design (literal strings, \\u escapes, +hh:mm offsets, integers beyond i32 without a suffix, multi-line strings, comments) are excluded by construction of the alphabet.",
+  "enumeration of documents emitted as compiled programs; macro result vs run-time parse equality"),
 }
 
 NOT_YET = {}
